@@ -349,6 +349,11 @@ func (h *l2) checkMutex() {
 }
 
 func genC13(r *simrt.Rand, tier string) *simrt.Plan {
+	if m := simrt.Mode("C13", 2); m != nil && r.Bool(0.04) {
+		// node level (a real Server with restarts; harness in the external test package);
+		// one such run costs about a hundred fragment-level ones
+		return m.Gen(r, tier)
+	}
 	kind := simrt.Pick(r, l2Mutex, l2Mutex, l2Bool)
 	g := newL2Gen(r, kind)
 	// few columns so that batches repeat them with conflicting rows
